@@ -43,13 +43,27 @@ def make_dataset(rng, k, size):
     return ds
 
 
-def one_store(rng, k, ts_name, max_cli, max_srv, source, reception, handler, workdir):
+def one_store(rng, k, ts_name, max_cli, max_srv, source, reception, handler, workdir, size=None):
+    """One C-STORE over loopback with the library's default time-outs (15 s).  A run that ends in a time-out or
+    an abort is repeated once on its own, so that a machine under load does not fail it; a transfer that is
+    slow by construction (finding D19: 50 ms per outgoing fragment) fails both times."""
+    state = rng.getstate()
+    term, human = _one_store(rng, k, ts_name, max_cli, max_srv, source, reception, handler, workdir, size)
+    if human['error'] and ('Timeout' in human['error'] or 'Aborted' in human['error']):
+        rng.setstate(state)
+        first = human['error']
+        term, human = _one_store(rng, k, ts_name, max_cli, max_srv, source, reception, handler, workdir + '-retry', size)
+        human['first_attempt'] = first
+    return term, human
+
+
+def _one_store(rng, k, ts_name, max_cli, max_srv, source, reception, handler, workdir, size=None):
     from pynetdicom2 import applicationentity as aemod, sopclass, statuses, exceptions, dsutils, dimsemessages as dm
     import pynetdicom2
     import pydicom
     from pydicom import uid as pyuid
     ts = pyuid.UID(TS[ts_name])
-    ds = make_dataset(rng, k, rng.choice([0, 50, 3000, 70000 if rng.random() < 0.2 else 500]))
+    ds = make_dataset(rng, k, size if size is not None else rng.choice([0, 50, 3000, 70000 if rng.random() < 0.2 else 500]))
     ds.is_implicit_VR = ts.is_implicit_VR
     ds.is_little_endian = ts.is_little_endian
     expected = dsutils.encode(ds, ts.is_implicit_VR, ts.is_little_endian)
@@ -90,7 +104,6 @@ def one_store(rng, k, ts_name, max_cli, max_srv, source, reception, handler, wor
     err = None
     with loopback.serving(srv) as port:
         cli = aemod.ClientAE('CLIENT', supported_ts=[ts], max_pdu_length=max_cli).add_scu(sopclass.storage_scu, [CT])
-        cli.timeout = 10
         try:
             with cli.request_association(loopback.remote(port)) as assoc:
                 svc = assoc.get_scu(CT)
@@ -189,6 +202,7 @@ def main(tier, seed):
     workdir = os.path.join(common.BUILD, 'c15-%d' % os.getpid())
     shutil.rmtree(workdir, ignore_errors=True)
     os.makedirs(workdir)
+    os.makedirs(workdir + '-retry')
     obs = []
     try:
         maxes = [0, 128, 1024, 16384, 65536]
@@ -206,9 +220,15 @@ def main(tier, seed):
                               rng.choice(['tempfile', 'directory', 'memory']), rng.choice(handlers)))
         for k, (ts_name, a, b, source, reception, handler) in enumerate(plans):
             obs.append(one_store(rng, k, ts_name, a, b, source, reception, handler, workdir))
+        # many fragments: 70 KB through 128-byte PDUs in either direction of the limit (about 575 fragments)
+        many = [('implicit', 128, 65536, 'memory', 'memory'), ('explicit_le', 65536, 128, 'file', 'directory'),
+                ('explicit_be', 128, 128, 'file', 'tempfile')]
+        for j, (ts_name, a, b, source, reception) in enumerate(many if tier != 'quick' else many[:2]):
+            obs.append(one_store(rng, len(plans) + j, ts_name, a, b, source, reception, 0, workdir, size=70000))
         obs += dir_cases(rng, workdir, tier)
     finally:
         shutil.rmtree(workdir, ignore_errors=True)
+        shutil.rmtree(workdir + '-retry', ignore_errors=True)
     run = common.CoqRun('C15')
     failing, broken, n_obl, n_ok = common.run_sharded(run, 'Store', IMPORTS, 'c15case', [t for t, _h in obs],
                                                       [('corr', 'c15_corr'), ('spec', 'c15_spec')], size=8)
@@ -219,7 +239,7 @@ def main(tier, seed):
     cov['rule'] = ('real loopback TCP, real threads: 3 transfer syntaxes x memory / file source x temp-file / directory / '
                    'in-memory reception x maximum PDU lengths from {0,128,1024,16384,65536}^2 x handler outcomes (success, '
                    'warning, failure, EventHandlingError) with seeded data sets (nested sequences, odd-length values, up to '
-                   '70 KB); directory storage called 2..5 times for the same instance UID on prepared directories')
+                   '70 KB), and 70 KB through 128-byte PDUs (about 575 fragments) at the default time-outs; directory storage called 2..5 times for the same instance UID on prepared directories')
     import collections
     cov['distribution'] = dict(loopback_runs=sum(1 for _t, h in obs if 'ts' in h), directory_calls=sum(1 for _t, h in obs if 'uid' in h),
                                by_reception=dict(collections.Counter(h['reception'] for _t, h in obs if 'ts' in h)),
